@@ -226,6 +226,7 @@ static int run_episodes(int argc, char **argv) {
     P.maxcycles = (int)vf_arg_ll(argc, argv, "--cycles", 4); if (P.maxcycles > EP_MAXC) P.maxcycles = EP_MAXC;
     P.seed = (uint64_t)vf_arg_ll(argc, argv, "--seed", 1); P.cs_max = (int)vf_arg_ll(argc, argv, "--cs", 100);
     int yp = parsec_verif_yield_permille;
+    int ep_keep = (int)vf_arg_ll(argc, argv, "--ep-keep", 0);
     sigcap = 1 << 20; sigset = calloc(sigcap, sizeof(uint64_t));
     vf_spinbar_init(&P.bar, P.nthreads + 1);
     pthread_t th[MAXT]; vf_team_ctx_t cx[MAXT]; pthread_barrier_t pb; pthread_barrier_init(&pb, NULL, (unsigned)P.nthreads);
@@ -234,7 +235,10 @@ static int run_episodes(int argc, char **argv) {
     for (long ep = 0; ep < nep && !vf_nviolations; ep++) {
         P.ep_no = ep;
         /* fresh lock, aged by a few uncontended cycles so that writer ticket parity (phase id) and reader counts vary */
-        parsec_atomic_rwlock_init(&L); parsec_verif_yield_permille = 0;
+        /* --ep-keep 1: keep the (pre-warmed) lock across episodes instead of starting from a fresh one, so that the episodes run
+         * while the reader ticket counters cross their sign change / wrap-around */
+        if (!ep_keep) parsec_atomic_rwlock_init(&L);
+        parsec_verif_yield_permille = 0;
         int kw = (int)vf_randn(&mr, 4), kr = (int)vf_randn(&mr, 3);
         for (int k = 0; k < kw; k++) { parsec_atomic_rwlock_wrlock(&L); parsec_atomic_rwlock_wrunlock(&L); }
         for (int k = 0; k < kr; k++) { parsec_atomic_rwlock_rdlock(&L); parsec_atomic_rwlock_rdunlock(&L); }
